@@ -29,6 +29,13 @@ EXN = {'PedanticTypeCheckException': 'PTypeCheckC', 'PedanticTypeVarMismatchExce
        'NameError': 'NameErrorC', 'LookupError': 'LookupErrorC', 'RecursionError': 'RecursionErrorC'}
 
 
+# Finding K-C02-class-name (a plain class that is CALLED like a key of the arity tables - List, Dict, Tuple, Union ... - or
+# `name` is rejected for every instance).  While the repair is pending both shapes of the two functions involved are
+# accepted and the shape found is emitted (plain_class_complete, newtype_test_by_class); the harness generates such class
+# names only for the repaired shape.  After the `fix:` commit set this to False: the pre-fix shapes are then refused by name.
+ACCEPT_PRE_FIX_CLASS_NAME_SHAPES = True
+
+
 def bad(reason):
     raise Untranslatable(UNIT, reason)
 
@@ -150,6 +157,13 @@ def translate():
         req[nm] = d
     hr = find_def(tree, '_has_required_type_arguments', UNIT)
     hb = strip_doc(hr.body)
+    plain_first = parse_stmts('if isinstance(cls, type) and not isinstance(cls, types.GenericAlias):\n    return True')
+    plain_class_complete = len(hb) > 0 and same([hb[0]], plain_first)
+    if plain_class_complete:
+        hb = hb[1:]
+    elif not ACCEPT_PRE_FIX_CLASS_NAME_SHAPES:
+        bad('_has_required_type_arguments looks a plain class up in the arity tables by its __name__ (pre-fix shape, finding '
+            'K-C02-class-name: an instance of a user class called List / Dict / Tuple / Union ... is rejected)')
     te = parse_stmts("if base == 'Tuple' and getattr(cls, '__args__', None) == ():\n    return True")
     tuple_empty_ok = len(hb) > 2 and same([hb[2]], te)
     if tuple_empty_ok:
@@ -159,6 +173,18 @@ def translate():
             'if base in NUM_OF_REQUIRED_TYPE_ARGS_EXACT:\n    return NUM_OF_REQUIRED_TYPE_ARGS_EXACT[base] == num_type_args\n'
             'elif base in NUM_OF_REQUIRED_TYPE_ARGS_MIN:\n    return NUM_OF_REQUIRED_TYPE_ARGS_MIN[base] <= num_type_args\nreturn True')):
         bad('_has_required_type_arguments changed')
+
+    nt_test = strip_doc(find_def(tree, '_is_type_new_type', UNIT).body)
+    nt_head = 'if type(type_) == typing.NewType:\n    return True\n'
+    if same(nt_test, parse_stmts(nt_head + 'return False')):
+        newtype_test_by_class = True
+    elif same(nt_test, parse_stmts(nt_head + "return type_.__qualname__ == NewType('name', int).__qualname__")):
+        if not ACCEPT_PRE_FIX_CLASS_NAME_SHAPES:
+            bad('_is_type_new_type falls back to comparing __qualname__ with that of NewType("name", int) (pre-fix shape, finding '
+                'K-C02-class-name: a class called `name` is taken for a NewType)')
+        newtype_test_by_class = False
+    else:
+        bad('_is_type_new_type changed')
 
     # ---- _is_instance: bare builtin set, missing-arguments raise ---------------------------------------------
     isi = find_def(tree, '_is_instance', UNIT)
@@ -453,5 +479,8 @@ def translate():
     out += f'  it_quant := {it_q};\n  it_index := {it_index}%nat;\n  iv_quant := {iv_q};\n  iv_conj := {iv_conj};\n  mp_via_items := true;\n'
     out += f'  tu_ell_quant := {ell_q};\n  tu_ell_index := {ell_index}%nat;\n  tu_len_check := {coq_bool(len_check)};\n  tu_zip_quant := {zip_q};\n'
     out += f'  un_quant := {un_q};\n  un_bound_uses_result := {coq_bool(un_uses_result)};\n  lit_in := {coq_bool(lit_in)};\n  ty_index := {ty_index}%nat;\n'
-    out += f'  str_walks_mro := {coq_bool(walks)};\n  none_by_eq := {coq_bool(none_by_eq)} |}}.\n'
+    out += f'  str_walks_mro := {coq_bool(walks)};\n  none_by_eq := {coq_bool(none_by_eq)};\n  plain_class_complete := {coq_bool(plain_class_complete)} |}}.\n'
+    # not consulted by the model (it has no class names): read by the harness, which calls a user class `name` only for the shape
+    # that recognises a NewType by its class alone
+    out += f'Definition newtype_test_by_class : bool := {coq_bool(newtype_test_by_class)}.\n'
     return {UNIT: out}
